@@ -22,6 +22,7 @@
 # include "config.h"
 #endif
 
+#include <float.h>
 #include <stdlib.h>
 #include <string.h>
 #include <math.h>
@@ -518,7 +519,13 @@ void mpq_EGlpNumSet (mpq_t var,
 	double __cvl = __dbl = fabs (__dbl);
 	/* we use the first three numbers for p, and the last three numbers for q */
 	/* first check that the dbl is not zero */
-	if (__dbl < 1e-151)
+	if (__dbl != __dbl || __dbl > DBL_MAX)
+	{
+		/* NaN / infinity have no rational value (mpq_set_d would raise SIGFPE) */
+		mpq_set_ui (var, (unsigned long int)0, (unsigned long int)1);
+		__lsgn = 0;
+	}
+	else if (__dbl < 1e-151)
 	{
 		mpq_set_ui (var, (unsigned long int)0, (unsigned long int)1);
 		__lsgn = 0;
